@@ -581,9 +581,11 @@ VMDK_STEP_ASSUMES = [
     '(rejected at byte 64, or text-descriptor mode = known finding F1)']
 
 
-def vmdk_step(phase):
+def vmdk_step(phase, footer=None):
     """R_VMDK(S, p0) and chunk == S[p0:p]  ==>  the real eat_chunk(chunk)
-    re-establishes R_VMDK(S, p) without raising."""
+    re-establishes R_VMDK(S, p) without raising.  (Split by phase, and by
+    whether the header announces a footer, only to run the cases in
+    parallel.)"""
     M = load(FI)
     S = fresh_bytes('S')
     p0 = fresh_int('p0', 0, len(S))
@@ -595,6 +597,8 @@ def vmdk_step(phase):
     else:
         assume(p0 >= 64)
     assume(disj(len(S) < 64, sparse_valid(S)))
+    if footer is not None:
+        assume((le(S, 56, 8) == GD_AT_END) == footer)
     PD = ParsedDescriptor()
     if phase == 'before':
         vmdk_check_R(M.VMDKInspector(), S, 0, PD, 'init')
@@ -624,13 +628,25 @@ def vmdk_sparse_step_before_the_header():
 @proof(['C01', 'C05', 'C02'], targets=VMDK_STEP_TARGETS, native=False,
        assumes=VMDK_STEP_ASSUMES)
 def vmdk_sparse_step_completing_the_header():
-    vmdk_step('crossing')
+    vmdk_step('crossing', footer=False)
+
+
+@proof(['C01', 'C05', 'C02'], targets=VMDK_STEP_TARGETS, native=False,
+       assumes=VMDK_STEP_ASSUMES)
+def vmdk_sparse_step_completing_the_header_with_footer():
+    vmdk_step('crossing', footer=True)
 
 
 @proof(['C01', 'C05', 'C02'], targets=VMDK_STEP_TARGETS, native=False,
        assumes=VMDK_STEP_ASSUMES)
 def vmdk_sparse_step_after_the_header():
-    vmdk_step('after')
+    vmdk_step('after', footer=False)
+
+
+@proof(['C01', 'C05', 'C02'], targets=VMDK_STEP_TARGETS, native=False,
+       assumes=VMDK_STEP_ASSUMES)
+def vmdk_sparse_step_after_the_header_with_footer():
+    vmdk_step('after', footer=True)
 
 
 @proof(['C01', 'C07', 'C03'],
@@ -736,7 +752,7 @@ CANARIES = [
          new="        for region in pre_complete - post_complete:",
          expect='step/descriptor-parsed'),
     dict(name='footer-window-one-sector-short', prop='C01', file=FI,
-         proofs=['vmdk_sparse_step_completing_the_header'],
+         proofs=['vmdk_sparse_step_completing_the_header_with_footer'],
          old="            self.new_region('footer', EndCaptureRegion(1536))",
          new="            self.new_region('footer', EndCaptureRegion(1024))",
          expect='step/footer'),
